@@ -1,10 +1,10 @@
-import CSSVerif.Local
+import CSSVerif.QuotLocal
 import CSSVerif.Unique
 /-! C01 / C10: the functional of a specification skeleton is *local* in the sense of `sol_unique`
 (it reads child `i` only at sizes `≤ n − shift_i` and its own class only below `n`), for skeletons made of
-verification, union, product and complement rules. Hence: two valuations that both satisfy every rule of a
+verification, union, product, complement and quotient (reverse product) rules. Hence: two valuations that both satisfy every rule of a
 productive skeleton agree — in particular what the recurrences compute equals the true enumeration as soon as the
-true enumeration satisfies every rule (`spec_counts_correct_partial`; quotient rules are the missing case). -/
+true enumeration satisfies every rule (`spec_counts_correct`). -/
 
 def toRule (r : SRule) : Rule := ⟨r.cls, r.sub, r.shifts⟩
 
@@ -14,14 +14,12 @@ def Fsk (skel : List SRule) (ρ : Rule) (a : Nat → Nat → Terms) (n : Nat) : 
   | some r => (ruleSemO r a n).getD []
   | none => []
 
-/-- well-formed skeleton: one rule per class; the declared shifts are the model's; a reverse rule's data is consistent;
-no quotient rule (not covered by this theorem) -/
+/-- well-formed skeleton: one rule per class; the declared shifts are the model's; a reverse rule's data is consistent -/
 structure SkelWF (skel : List SRule) : Prop where
   lhsNodup : (skel.map (·.cls)).Nodup
-  noQuot : ∀ r ∈ skel, r.kind ≠ .quotient
   shifts : ∀ r ∈ skel, r.shifts = modelShifts r
   lens : ∀ r ∈ skel, r.kind ≠ .ver → r.sub.length = r.children.length
-  idx : ∀ r ∈ skel, r.kind = .complement → r.idx < r.children.length ∧ 0 < r.sub.length
+  idx : ∀ r ∈ skel, (r.kind = .complement ∨ r.kind = .quotient) → r.idx < r.children.length ∧ 0 < r.sub.length
 
 theorem find_self {skel : List SRule} (h : (skel.map (·.cls)).Nodup) {r : SRule} (hr : r ∈ skel) :
     skel.find? (fun x => x.cls == r.cls) = some r := by
@@ -65,7 +63,82 @@ theorem skel_local {skel : List SRule} (hwf : SkelWF skel) : Local (skel.map toR
   have hsh := hwf.shifts r hr
   cases hk : r.kind with
   | ver => simp [ruleSemO, hk]
-  | quotient => exact absurd hk (hwf.noQuot r hr)
+  | quotient =>
+    have hl := hwf.lens r hr (by rw [hk]; intro e; cases e)
+    obtain ⟨hidx, hpos⟩ := hwf.idx r hr (Or.inr hk)
+    have hshq : r.shifts = reverseShifts (productShifts (r.children.map (·.minSize))) r.idx := by
+      rw [hsh]; simp only [modelShifts, hk]
+    have hpsI : (productShifts (r.children.map (·.minSize))).getD r.idx 0 = ((qShift r.children r.idx : Nat) : Int) := by
+      unfold productShifts qShift
+      rw [List.getD_eq_getElem?_getD, List.getElem?_map, List.getElem?_map, List.getD_eq_getElem?_getD,
+          List.getElem?_eq_getElem hidx]
+      rfl
+    have hsib : SibHyp r a b n := by
+      intro j hj hne m hm
+      have hk' : (if j < r.idx then j else j - 1) + 1 < r.sub.length := by split <;> omega
+      have hrc : r.sub[(if j < r.idx then j else j - 1) + 1]? = some (revClass r j) := by
+        unfold revClass
+        have : (j == r.idx) = false := by simpa using hne
+        rw [this]
+        simp only [Bool.false_eq_true, ↓reduceIte]
+        rw [List.getD_eq_getElem?_getD, List.getElem?_drop, Nat.add_comm 1, List.getElem?_eq_getElem hk']
+        rfl
+      have hpl : (productShifts (r.children.map (·.minSize))).length = r.children.length := by simp [productShifts]
+      have hke : (if j < r.idx then j else j - 1) < ((productShifts (r.children.map (·.minSize))).eraseIdx r.idx).length := by
+        rw [List.length_eraseIdx, hpl]; simp only [hidx, ↓reduceIte]; split <;> omega
+      have hsj : r.shifts[(if j < r.idx then j else j - 1) + 1]? =
+          some (((((r.children.map (·.minSize)).sum - (r.children.getD j dfltChild).minSize : Nat) : Int)) +
+                 -((qShift r.children r.idx : Nat) : Int)) := by
+        rw [hshq]
+        unfold reverseShifts
+        simp only [List.getElem?_cons_succ, List.getElem?_map, hpsI]
+        rw [List.getElem?_eq_getElem hke, List.getElem_eraseIdx]
+        have hj' : j < (productShifts (r.children.map (·.minSize))).length := by omega
+        have hval : (productShifts (r.children.map (·.minSize)))[j] =
+            ((((r.children.map (·.minSize)).sum - (r.children.getD j dfltChild).minSize : Nat) : Int)) := by
+          have hv : (productShifts (r.children.map (·.minSize)))[j]? =
+              some ((((r.children.map (·.minSize)).sum - (r.children.getD j dfltChild).minSize : Nat) : Int)) := by
+            unfold productShifts
+            rw [List.getElem?_map, List.getElem?_map, List.getElem?_eq_getElem hj, List.getD_eq_getElem?_getD,
+                List.getElem?_eq_getElem hj]
+            rfl
+          have := List.getElem?_eq_getElem hj'
+          rw [hv] at this
+          exact (Option.some.inj this).symm
+        by_cases hlt : j < r.idx
+        · simp only [hlt, ↓reduceIte, dite_true, Option.map_some]
+          rw [hval]
+        · have hgt : r.idx < j := by omega
+          have e1 : ¬ (j - 1 < r.idx) := by omega
+          simp only [hlt, ↓reduceIte, e1, dite_false, Option.map_some]
+          have e2 : j - 1 + 1 = j := by omega
+          simp only [e2]
+          rw [hval]
+      have hmem := mem_deps_of_index r _ _ _ hrc hsj
+      refine hdeps _ hmem m ?_
+      have m1 := child_min_le_sum r.children j hj
+      have m2 := child_min_le_sum r.children r.idx hidx
+      simp only
+      unfold qShift
+      omega
+    have hbeq : (Kind.quotient == Kind.complement) = false := by decide
+    simp only [ruleSemO, hk, hbeq, Bool.false_eq_true, ↓reduceIte]
+    by_cases hmin : n < (r.children.getD r.idx dfltChild).minSize
+    · unfold quotientTerms
+      simp only [attachRev_getD_min, hmin, ↓reduceIte]
+    · have hhead : r.sub[0]? = some (r.sub.headD 0) := by
+        cases hs : r.sub with
+        | nil => rw [hs] at hpos; simp at hpos
+        | cons x xs => simp
+      have hs0 : r.shifts[0]? = some (-((qShift r.children r.idx : Nat) : Int)) := by
+        rw [hshq]; unfold reverseShifts; simp only [List.getElem?_cons_zero, hpsI]
+      have hmem := mem_deps_of_index r 0 _ _ hhead hs0
+      have hpar : a (r.sub.headD 0) (n + qShift r.children r.idx) = b (r.sub.headD 0) (n + qShift r.children r.idx) := by
+        refine hdeps _ hmem _ ?_
+        simp only
+        omega
+      rw [quotient_congr r a b n hpar (fun hn => quot_hA r a b n hidx hn hself hsib)
+            (quot_hC r a b n hidx (by omega) hsib)]
   | union =>
     have hl := hwf.lens r hr (by rw [hk]; intro e; cases e)
     have : unionTerms r.parentNames (attach a r) n = unionTerms r.parentNames (attach b r) n := by
@@ -110,7 +183,7 @@ theorem skel_local {skel : List SRule} (hwf : SkelWF skel) : Local (skel.map toR
     simp only [ruleSemO, hk, this]
   | complement =>
     have hl := hwf.lens r hr (by rw [hk]; intro e; cases e)
-    obtain ⟨hidx, hpos⟩ := hwf.idx r hr hk
+    obtain ⟨hidx, hpos⟩ := hwf.idx r hr (Or.inl hk)
     have hzero : ∀ i, i < r.sub.length → r.shifts[i]? = some 0 := by
       intro i hi
       rw [hsh]; simp only [modelShifts, hk]
@@ -133,17 +206,17 @@ theorem skel_local {skel : List SRule} (hwf : SkelWF skel) : Local (skel.map toR
     have hbeq : (Kind.complement == Kind.complement) = true := by decide
     simp only [ruleSemO, hk, hbeq, ↓reduceIte, this]
 
-/-- **C01 (partial: no quotient rule in the skeleton).** If the computed valuation `a` and the true enumeration `b` both
+/-- **C01 (model).** If the computed valuation `a` and the true enumeration `b` both
 satisfy every rule of a well-formed skeleton, they agree on every productive class, at every size. -/
-theorem spec_counts_correct_partial {skel : List SRule} (hwf : SkelWF skel) (a b : Nat → Nat → Terms)
+theorem spec_counts_correct {skel : List SRule} (hwf : SkelWF skel) (a b : Nat → Nat → Terms)
     (ha : IsSol (skel.map toRule) (Fsk skel) a) (hb : IsSol (skel.map toRule) (Fsk skel) b)
     (c : Nat) (hprod : ∀ n, Comp (skel.map toRule) c n) : ∀ n, a c n = b c n :=
   sol_unique (skel_local hwf) ha hb c hprod
 #print axioms skel_local
-#print axioms spec_counts_correct_partial
+#print axioms spec_counts_correct
 
 /-- non-vacuity: the skeleton `F0 = F1 + F2, F1 = ε (verified), F2 = F3 × F0, F3 = atom of size 1` (all words over one
-letter) is well formed, so the hypotheses of `spec_counts_correct_partial` are satisfiable; and it is productive -/
+letter) is well formed, so the hypotheses of `spec_counts_correct` are satisfiable; and it is productive -/
 def exampleSkel : List SRule :=
   [ { cls := 0, kind := .union, parentNames := [], sub := [1, 2], shifts := [0, 0],
       children := [⟨[], [], 0, some 0, fun _ => []⟩, ⟨[], [], 1, none, fun _ => []⟩] },
@@ -153,4 +226,41 @@ def exampleSkel : List SRule :=
     { cls := 3, kind := .ver, parentNames := [], sub := [], shifts := [], children := [], table := [(1, [([], 1)])] } ]
 
 example : SkelWF exampleSkel :=
-  ⟨by decide, by decide, by decide, by decide, by decide⟩
+  ⟨by decide, by decide, by decide, by decide⟩
+
+/-- non-vacuity with a reverse rule: `A = P / B` (the rule `P = A × B` read backwards, `idx = 0`), `P` and `B` verified -/
+def exampleSkelQ : List SRule :=
+  [ { cls := 0, kind := .quotient, parentNames := [], sub := [1, 2], shifts := [-1, -1], idx := 0,
+      children := [⟨[], [], 0, none, fun _ => []⟩, ⟨[], [], 1, some 1, fun _ => []⟩] },
+    { cls := 1, kind := .ver, parentNames := [], sub := [], shifts := [], children := [], table := [(1, [([], 1)])] },
+    { cls := 2, kind := .ver, parentNames := [], sub := [], shifts := [], children := [], table := [(1, [([], 1)])] } ]
+
+example : SkelWF exampleSkelQ :=
+  ⟨by decide, by decide, by decide, by decide⟩
+
+/-- executable form of `SkelWF`, evaluated by the driver on every skeleton read off a real specification -/
+def skelWFB (skel : List SRule) : Bool :=
+  decide ((skel.map (·.cls)).Nodup) &&
+  skel.all (fun r =>
+    decide (r.shifts = modelShifts r) &&
+    (decide (r.kind = .ver) || decide (r.sub.length = r.children.length)) &&
+    (!(decide (r.kind = .complement) || decide (r.kind = .quotient)) ||
+      (decide (r.idx < r.children.length) && decide (0 < r.sub.length))))
+
+theorem skelWFB_sound {skel : List SRule} (h : skelWFB skel = true) : SkelWF skel := by
+  unfold skelWFB at h
+  simp only [Bool.and_eq_true, decide_eq_true_eq, List.all_eq_true, Bool.or_eq_true, Bool.not_eq_true',
+    Bool.or_eq_false_iff, decide_eq_false_iff_not] at h
+  obtain ⟨hn, hall⟩ := h
+  refine ⟨hn, fun r hr => (hall r hr).1.1, ?_, ?_⟩
+  · intro r hr hk
+    rcases (hall r hr).1.2 with h1 | h1
+    · exact absurd h1 hk
+    · exact h1
+  · intro r hr hk
+    rcases (hall r hr).2 with h1 | h1
+    · rcases hk with hk | hk
+      · exact absurd hk h1.1
+      · exact absurd hk h1.2
+    · exact h1
+#print axioms skelWFB_sound
